@@ -1,6 +1,7 @@
 package harness
 
 import (
+	"encoding/hex"
 	"fmt"
 	"sort"
 
@@ -8,6 +9,7 @@ import (
 	"com.tuntun.rangers/node/src/middleware"
 	"com.tuntun.rangers/node/src/middleware/notify"
 	"com.tuntun.rangers/node/src/middleware/types"
+	"com.tuntun.rangers/node/src/zzverif/evmasm"
 	"com.tuntun.rangers/node/src/zzverif/node"
 	"com.tuntun.rangers/node/src/zzverif/simdisk"
 	"com.tuntun.rangers/node/src/zzverif/simmap"
@@ -75,6 +77,14 @@ func c17ChainExec(p c17ChainPlan, st *simrt.Stats, log *simrt.Log) *simrt.Violat
 		middleware.SimRunWrite(&notify.ClientTransactionMessage{Tx: *tx, UserId: "", Nonce: uint64(7 + g), GateNonce: 0})
 		st.Fault("gateway_tx_pre_executed_on_latest_state")
 	}
+	// a contract creation whose constructor emits an event without topics (LOG0) and one with a topic: their
+	// executed records must be retrievable once the block is on chain
+	{
+		var init evmasm.Code
+		init.Push(0).Push(0).Op(0xa0).Log1(0xC0DE, 7).Push(1).Push(0).Op(evmasm.RETURN)
+		ct := node.TxSpec{K: "create", From: 1, Data: hex.EncodeToString(init), Gas: 60000000, Salt: fmt.Sprintf("c17ch-log0-%d", p.Seed)}.Build()
+		n.Pool.AddTransaction(ct)
+	}
 	nonceChecked := map[common.Hash]uint64{}
 	// the proposals and insertions run as one task of the seeded scheduler: a goroutine the chain starts while
 	// inserting a block is a task that may still be pending when the node proposes again
@@ -88,12 +98,28 @@ func c17ChainExec(p c17ChainPlan, st *simrt.Stats, log *simrt.Log) *simrt.Violat
 	if out != nil {
 		return out
 	}
+	// quiescence: every transaction of a canonical block has its executed record (with its receipt)
+	for _, blk := range c17ChainInserted {
+		for _, t := range blk.Transactions {
+			ex := n.Pool.GetExecuted(t.Hash)
+			if ex == nil {
+				return viol(-1, "executed-record-missing", "chain-level", "transaction %x (type %d) is in canonical block %x at height %d but GetExecuted returns nothing for it", t.Hash.Bytes()[:6], t.Type, blk.Header.Hash.Bytes()[:6], blk.Header.Height)
+			}
+			if ex.Receipt.BlockHash != blk.Header.Hash {
+				return viol(-1, "executed-record-missing", "chain-level-block-hash", "the executed record of transaction %x names block %x, it was executed in canonical block %x", t.Hash.Bytes()[:6], ex.Receipt.BlockHash.Bytes()[:6], blk.Header.Hash.Bytes()[:6])
+			}
+		}
+	}
 	st.State(simrt.HashString(fmt.Sprintf("chain|%d|%v|%d", p.Gate, p.Ahead, p.Rounds)))
 	st.Nontrivial(simrt.HashString(fmt.Sprintf("chain|%d|%v|%d", p.Gate, p.Ahead, p.Rounds)))
 	return nil
 }
 
+var c17ChainInserted []*types.Block
+
 func c17ChainRounds(p c17ChainPlan, n *node.Node, sender string, saddr common.Address, canonNonce func() uint64, nonceChecked map[common.Hash]uint64, st *simrt.Stats, log *simrt.Log) *simrt.Violation {
+	var inserted []*types.Block
+	defer func() { c17ChainInserted = inserted }()
 	viol := func(ev int, clause, where, f string, a ...interface{}) *simrt.Violation {
 		return simrt.Violationf("C17", clause, where, ev, f, a...)
 	}
@@ -156,6 +182,8 @@ func c17ChainRounds(p c17ChainPlan, n *node.Node, sender string, saddr common.Ad
 		for _, t := range blk.Transactions {
 			onChain[t.Hash] = blk.Header.Hash
 		}
+		// (checked at the end of the plan, when every goroutine the insertion started has finished)
+		inserted = append(inserted, blk)
 		middleware.AccountDBManagerInstance.Height = n.Chain.TopBlock().Height
 	}
 	return nil
